@@ -43,7 +43,7 @@ EXPLANATION = ("Theorems: the p-norm of the difference of two finitely supported
                "specification is exactly the duplicate-free sequences over 1..n of the allowed lengths and the edge "
                "list exactly the adjacent pairs, for every n.")
 
-N_QUICK, N_THOROUGH = 1200, 14400
+N_QUICK, N_THOROUGH = 1200, 43200
 
 
 def cases(rng, tier, shard, nshards, phase):
